@@ -5,6 +5,7 @@ import functools as ft
 import json
 import logging
 import sys
+import zlib
 
 import pjrpc
 from pjrpc.client import AbstractAsyncClient, AbstractClient
@@ -119,15 +120,35 @@ def run(scn, loop):
     ev, execs = [], []
     disp = make_dispatcher(p['dk'], execs)
 
+    # variant (chosen by the content of the program, the same for both halves): the batch wrapper object has already made a round
+    # trip with one call before the program's calls are added to it and it is called again
+    hv = zlib.crc32(json.dumps({k: v for k, v in p.items() if k not in ('ck', 'dk')}, sort_keys=True).encode())
+    warm = hv % 3 == 0 and p['idgen'] != 'uuid' and any(not c['notif'] for c in p['calls']) and p['notation'] not in ('call', 'dunder_call', 'proxy', 'notify', 'send', 'batch_getitem', 'batch_proxy')
+    warming = [False]
+    resent = [False]
+
     def transport(text, is_notification, kwargs):
+        if warming[0]:
+            return disp.dispatch(text)
         doc, wf, ids_ok = abstract_wire(text)
+        if warm and doc['els'] and doc['els'][0]['args'] == 'other' and doc['els'][0]['method'] == 'echo':
+            resent[0] = True           # the earlier call is sent again with the new ones: left out of the abstract document
+            doc['els'] = doc['els'][1:]
         # what else the transport is handed: the notification flag and the request arguments (client-wide ones, overridden by
         # those given for this very request)
         kw = {'a': 'client', 'b': 'client'} == kwargs and 'client' or ({'a': 'client', 'b': 'call'} == kwargs and 'override' or 'other:%r' % (kwargs,))
-        ev.append({'ev': 'Send', 'doc': doc, 'wf': wf, 'ids_ok': ids_ok, 'notif': is_notification is True, 'kw': kw})
+        e = {'ev': 'Send', 'doc': doc, 'wf': wf, 'ids_ok': ids_ok, 'notif': is_notification is True, 'kw': kw}
+        if warm:
+            e['resent'] = resent[0]    # compared between the halves (C11); the specification leaves it open
+        ev.append(e)
         return disp.dispatch(text)              # a coroutine for the asynchronous dispatcher
 
     def after(ret):
+        if warming[0]:
+            del execs[:]
+            return ret[0] if ret is not None else None
+        if resent[0] and execs and execs[0]['args'] == 'other':
+            del execs[0]
         ev.append({'ev': 'Serve', 'execs': [{'beh': e['beh'], 'args': 'none' if e['args'] == 'none' else e['args']} for e in execs]})
         return ret[0] if ret is not None else None
 
@@ -182,6 +203,13 @@ def run(scn, loop):
             for c in calls:
                 getattr(pr, c['beh'])(*ARGS[c['args']][0], **ARGS[c['args']][1])
             return pr() if len(calls) % 2 else pr.call()       # the proxy object itself is callable
+        if warm:
+            b.add('echo', 'warm')
+            warming[0] = True
+            r0 = b.call()
+            if asyncio.iscoroutine(r0):
+                r0 = loop.run_until_complete(r0)
+            warming[0] = False
         for c in calls:
             a, k = ARGS[c['args']]
             if c['notif']:
@@ -212,6 +240,8 @@ def run(scn, loop):
         if res is None:
             ev.append({'ev': 'Return', 'k': 'nothing', 'vals': []})
         elif isinstance(res, tuple):
+            if resent[0] and res and res[0] == {'a': 'warm', 'b': None}:
+                res = res[1:]
             ev.append({'ev': 'Return', 'k': 'tuple', 'vals': [a_value(v) for v in res]})
         else:
             ev.append({'ev': 'Return', 'k': 'value', 'vals': [a_value(res)]})
